@@ -180,7 +180,8 @@ func vpC14Arb(n, m int) {
 	vpReach("end")
 }
 
-func vpH_C14_arb1()  { vpC14Arb(vpChoice(2), vpChoice(2)) }
+func vpH_C14_arb1() { vpC14Arb(vpChoice(2), vpChoice(2)) }
+
 // (two and three arbitrary bytes against 0-2: the URL parser and the path cleaner split on almost every
 // byte value; 15 minutes were not enough for 2x1 - not registered. The grid and the partial-URL families
 // cover structured inputs; arbitrary strings are covered for 1x1 bytes.)
